@@ -782,7 +782,8 @@ def krylov(model, sfield, efield, var):
         if var.exit_message == '':
             var.exit_message = f"Error in {var.sslsolver} ({i})"
         pre = "\n* ERROR   :: "
-    elif i > 0:
+    elif i > 0 or var.ssl_maxit < 1:
+        # (SciPy returns info=maxiter if not converged; hence 0 if maxiter=0.)
         var.exit_message = "MAX. ITERATION REACHED, NOT CONVERGED"
     else:
         var.exit_message = "CONVERGED"
